@@ -101,6 +101,16 @@ reg("C18", "rules_funcs", "check_C18", "other",
     "R49 (S): cosh/sinh/tanh/acosh/asinh/atanh are the stated combinations of exp, ln, sqrt. R47 (N, repository-specific numerical lint): t + sqrt(t*t + c) is evaluated only with t >= 0 (abs / sign split) wherever the accurate domain contains negative arguments. R48 (S, algebra Z): sinh and tanh normalise to odd functions, so accuracy for negative arguments is accuracy for positive ones. Accuracy bounds and exact points are not decided.",
     COMMON_ASSUME + ["accuracy of exp / ln / sqrt themselves (C13-C15) is not re-derived"])
 
+reg("C09", "rules_conv", "check_C09", "other",
+    "instances = From/TryFrom impls for the ten integer types (value and reference forms), float projections, 45 num_traits routes",
+    "R21 (S): small-int From is {n as f64, 0.0}; TryFrom truncates, range-checks against the exact f64 images of T::MIN/T::MAX, then casts the high word. R22 (S/N): wide-int From builds Fast2Sum(n as f64, remainder) with the three remainder arms; TryFrom range-checks against {MIN,0}..={MAX as f64,-1} (= MAX exactly) and recombines in integer arithmetic by the three arms; value/reference twins agree. R23 (S): FromPrimitive/ToPrimitive routes delegate to exactly these impls (isize/usize by size_of), NumCast's f64 fast path is limited to 2^53. Totality is decided by the panic-site analysis (R24). Exactness of the 128-bit split for every value is not decided.",
+    COMMON_ASSUME + ["run-time integer/float arithmetic exactness per value is not decided"])
+
+reg("C20", "rules_fmt", "check_C20", "other",
+    "instances = 12 format_args! sites (expanded AST) + 3 fmt bodies (MIR, 8 paths each) + template agreement, serde writer, field visitor, visit_seq, visit_map, entry point",
+    "R53 (S per arm, X across impls): every format_args! in Display/LowerExp/UpperExp::fmt is '<hi> <sign> <|lo|>' with the impl's own trait, '+' exactly in the sign_plus arm and on the first numeral only, precision forwarded to both numerals exactly in the Some(p) arm; on the MIR the sign character is '+' iff lo's sign bit is clear and the arguments are (hi, sign, libm::fabs(lo)); the three impls compile identical templates. R54 (S): the writer emits struct(2){hi, lo} in order; the reader maps exactly hi/lo, visit_seq and visit_map (loop analysed by havoc abstraction + def-use slicing) feed element 0 / the Hi slot and element 1 / the Lo slot to TwoFloat::try_from, which is the only way to an Ok value, with duplicate/missing/unknown fields rejected. core::fmt's rendering of an f64 and serde data formats are trusted.",
+    COMMON_ASSUME + ["f64's own Display/LowerExp/UpperExp round-trip guarantee (core::fmt) and serde's data-format behaviour"])
+
 def main(argv):
     if not argv:
         print('usage: check <ID>|all [--tier quick|thorough]'); return 2
